@@ -17,7 +17,7 @@ Theorem C20_generated_facts : gen_cfg = pinned_cfg.
 Proof. reflexivity. Qed.
 Theorem C20_generated_normalize :
   gen_ncfg = pinned_ncfg
-  /\ gen_valid_field_name_pattern = tx "^_?[a-zA-Z][a-zA-Z0-9_]*$"
+  /\ gen_valid_field_name_body = tx "^_?[a-zA-Z][a-zA-Z0-9_]*"
   /\ forallb starts_with_underscore (g_reserved gen_cfg) = true
   /\ forallb gen_isdecimal (N_range 48 10) = true
   /\ forallb (fun ch => negb (gen_isdecimal ch)) (N_range 65 26 ++ N_range 97 26) = true.
@@ -228,6 +228,15 @@ Proof.
   intros name H Hm.
   exact (normalize_valid_on_simple_names (g_reserved gen_cfg) gen_ncfg gen_isdecimal eq_refl eq_refl eq_refl name H Hm).
 Qed.
+
+(* RE_VALID_FIELD_NAME's end anchor (gen_valid_field_name_end_is_Z: `\Z`, or `$` which also matches before one
+   trailing line feed) is NOT pinned: valid_field_name is the `\Z` reading, valid_field_name_dollar the `$` reading,
+   and they differ only on text holding a line feed -- which a valid name (hence every normalised simple name of
+   C20_normalize_valid_on_simple_names and every header name of C20_csv_read_back) does not hold *)
+Theorem C20_valid_name_anchor : forall s,
+  (valid_field_name s = true -> ~ In LF s)
+  /\ (~ In LF s -> valid_field_name_dollar s = valid_field_name s).
+Proof. intros s. split; [exact (valid_field_name_no_lf s)|exact (valid_field_name_dollar_same s)]. Qed.
 
 (* ---------------------------------------------------------------------------------------------- *)
 (* reading back: a CSV file with a header of valid field names and rows of that many cells -- whatever the
